@@ -331,6 +331,8 @@ func c16Case(w *core.Worker, i int) {
 				"UPDATE t SET c1 = 'changed' WHERE id % 2 = 0;",
 				"DELETE FROM t WHERE id % 3 = 0;",
 				"UPDATE t SET c1 = NULL;",
+				"REPLACE INTO t (id, c1) USING (id) VALUES ('1', 'replaced'), ('2', 'replaced2'), ('3', NULL);",
+				"REPLACE INTO t (id, c1) USING (id) SELECT id, 'rs' FROM t WHERE id % 2 = 1;",
 				"COMMIT;", "ROLLBACK;",
 				fmt.Sprintf("ALTER TABLE t ADD x%d DEFAULT 1;", nextID),
 			}
